@@ -68,6 +68,7 @@ type treeSpec struct {
 	files map[string]string // relative path -> content
 	old   map[string]bool   // outputs that are OLDER than their template (stale)
 	near  map[string]bool   // the output's time differs from the template's by less than a second (same wall-clock second)
+	epoch map[string]bool   // templates whose modification time is the Unix epoch (reproducible archives, touch -d @0)
 }
 
 func skippedDir(rel string, extra []string) bool {
@@ -88,7 +89,7 @@ func skippedDir(rel string, extra []string) bool {
 }
 
 func (c *Ctx) genTree() treeSpec {
-	t := treeSpec{files: map[string]string{}, old: map[string]bool{}, near: map[string]bool{}}
+	t := treeSpec{files: map[string]string{}, old: map[string]bool{}, near: map[string]bool{}, epoch: map[string]bool{}}
 	// (directories whose names merely END in a skipped name, or start with one, are ordinary directories)
 	dirs := []string{"", "a", "a/b", "vendor", "vendor/x", "node_modules/m", ".hidden", "_private", "skipme", "a/skipme", "a/.git", "deep/er/est",
 		"govendor", "a/old_node_modules", "xskipme", "skipme2/in", "vendors",
@@ -123,6 +124,9 @@ func (c *Ctx) genTree() treeSpec {
 			// an unrelated file whose name sorts between the template and its output (editor backup, dependency file, copy)
 			t.files[p+[]string{".bak", ".d", "-old", " (copy)", ".fo"}[c.R.Intn(5)]] = "unrelated neighbour\n"
 		}
+		if c.R.Intn(7) == 0 {
+			t.epoch[p] = true
+		}
 		switch c.R.Intn(5) {
 		case 0: // up-to-date output (content is whatever: must not be rewritten)
 			t.files[p+".go"] = "// up to date marker " + name + "\npackage t\n"
@@ -156,6 +160,9 @@ func (t treeSpec) write(root string, base time.Time) {
 		os.MkdirAll(filepath.Dir(full), 0755)
 		os.WriteFile(full, []byte(t.files[p]), 0644)
 		mt := base.Add(600 * time.Millisecond) // templates: in the middle of a wall-clock second
+		if t.epoch[p] {
+			mt = time.Unix(0, 0)
+		}
 		if strings.HasSuffix(p, ".goht.go") {
 			switch {
 			case t.old[p] && t.near[p]:
@@ -414,7 +421,7 @@ func genRequest(before, after map[string]fsEntry, force, keep bool, skip []strin
 	for _, p := range paths {
 		e := before[p]
 		d, n := enc(p)
-		files = append(files, fmt.Sprintf("%s:%s:%s:%d", d, n, hxs(id(e.content)), e.mtime.UnixNano()))
+		files = append(files, fmt.Sprintf("%s:%s:%s:%d", d, n, hxs(id(e.content)), e.mtime.UnixNano()+1)) // (+1: the model's times are positive, 0 is its "no time"; the Unix epoch itself is a real time)
 		if strings.HasSuffix(p, ".goht") && !seenFc[e.content] {
 			seenFc[e.content] = true
 			if out, ok := expectedOutput(e.content); ok {
@@ -429,7 +436,7 @@ func genRequest(before, after map[string]fsEntry, force, keep bool, skip []strin
 		if !ok {
 			return "-"
 		}
-		mt := fmt.Sprint(a.mtime.UnixNano())
+		mt := fmt.Sprint(a.mtime.UnixNano() + 1)
 		if b, was := before[p]; !was || b.mtime != a.mtime {
 			mt = "W"
 		}
